@@ -364,24 +364,30 @@ theorem sound_calls_gen {s : Simp} (hs : SimpSound s) (o : Oracle) (cfg : Cfg) (
     (hcodes : ∀ a, w.codeOf a = codeOf codes a)
     (hcb : ∀ a prog, codeOf codes a = some prog → ∀ b ∈ prog, b < 256)
     (hz : ∀ a, S a → ZeroStorage w a)
-    (hob : cfg.balances = true → OracleSound o) (hch : CreateHyp cfg p S w) (hnh : cfg.hsto = false)
+    (hob : cfg.balances = true → OracleSound o) (hch : CreateHyp cfg p S w)
+    (hoh : cfg.hsto = true → OracleSound o)
     (ce : CEnd) (hce : ce ∈ (runC s o cfg env codes this fuel).ends)
     (htag : ce.e.tag = .normal) (h : Evm.Halt) (hout : ce.e.out = .halt h) (I : Interp) (hI : I.Std)
     (hbal : cfg.balances = true → BalHyp I cfg w) (hsha : cfg.sha3 = true → ShaInterp I p cfg)
+    (hhs : ∀ cs, VisitedC s o cfg codes (initC env codes this) cs → Sat I cs.st.path → HstoOK I p s cfg cs)
     (f0 : Evm.Frame) (hR0 : R I env ((codeOf codes this).getD []) p initState f0) (hthis : f0.this = this)
     (hd0 : f0.depth = 0) (hsat : Sat I ce.e.st.path) :
     ∃ n w', Evm.exec p n w f0 = some (w', haltWith h (ce.e.data.map (·.eval I))) ∧
-        WRelM I S (wd w ce.created ce.nonce) w' (stoOf ce.stores) (evalLogs I ce.logs) (balSem I w ce.bal) := by
+        WRelM I S (wd w ce.created ce.nonce) w' (stoOf ce.stores) (evalLogs I ce.logs) (balSem I w ce.bal) ∧
+        HRel I p S w' ce.hsto := by
   have hgood := exploreC_sound (o := o) (cfg := cfg) (codes := codes) (p := p) (w0 := w)
     (S := S) (cs0 := initC env codes this)
-    (H := fun I => (cfg.balances = true → BalHyp I cfg w) ∧ (cfg.sha3 = true → ShaInterp I p cfg))
-    hs hmem hdep hcodes hSc hcb hob (fun _ h => h) hch hnh fuel 0 [initC env codes this] {} (by
+    (H := fun I => (cfg.balances = true → BalHyp I cfg w) ∧ (cfg.sha3 = true → ShaInterp I p cfg) ∧
+      ∀ cs, VisitedC s o cfg codes (initC env codes this) cs → Sat I cs.st.path → HstoOK I p s cfg cs)
+    hs hmem hdep hcodes hSc hcb hob (fun _ h => ⟨h.1, h.2.1⟩) hch hoh (fun _ _ h => h.2.2) fuel 0
+    [initC env codes this] {} (by
       intro cs hm
       rw [List.mem_singleton] at hm
-      subst hm; exact goodC_init)
+      subst hm; exact ⟨goodC_init, .start⟩)
     (by intro e hm; cases hm)
-  obtain ⟨w', ⟨n, hn⟩, hW⟩ := hgood ce hce htag h hout I hI ⟨hbal, hsha⟩ f0 (relC_init hR0 hthis hd0 hcb hS0 hz) hsat
-  exact ⟨n, w', hn, hW⟩
+  obtain ⟨w', ⟨n, hn⟩, hW, hH⟩ :=
+    hgood ce hce htag h hout I hI ⟨hbal, hsha, hhs⟩ f0 (relC_init hR0 hthis hd0 hcb hS0 hz) hsat
+  exact ⟨n, w', hn, hW, hH⟩
 
 /-- **C01.sound_calls** (statement and commentary above; `hnc`: CREATE is not followed — it ends the path stuck —, so
     nothing is ever created (`runC_noCr`) and the relation is against the start world `w` itself). -/
@@ -399,8 +405,9 @@ theorem sound_calls {s : Simp} (hs : SimpSound s) (o : Oracle) (cfg : Cfg) (env 
     (hd0 : f0.depth = 0) (hsat : Sat I ce.e.st.path) :
     ∃ n w', Evm.exec p n w f0 = some (w', haltWith h (ce.e.data.map (·.eval I))) ∧
         WRelM I (Modelled codes this) w w' (stoOf ce.stores) (evalLogs I ce.logs) (balSem I w ce.bal) := by
-  obtain ⟨n, w', hn, hW⟩ := sound_calls_gen hs o cfg env codes this fuel p w (Modelled codes this) (Or.inl rfl)
-    (fun _ _ h => modelled_of_code h) hmem hdep hcodes hcb hz hob (CreateHyp.off hnc) hnh ce hce htag h hout I hI hbal hsha
+  obtain ⟨n, w', hn, hW, _⟩ := sound_calls_gen hs o cfg env codes this fuel p w (Modelled codes this) (Or.inl rfl)
+    (fun _ _ h => modelled_of_code h) hmem hdep hcodes hcb hz hob (CreateHyp.off hnc)
+    (fun h' => by rw [hnh] at h'; cases h') ce hce htag h hout I hI hbal hsha (fun _ _ _ => hstoOK_off hnh)
     f0 hR0 hthis hd0 hsat
   obtain ⟨hc, hn0⟩ := runC_noCr hnc ce hce
   rw [hc, hn0, wd_zero] at hW
@@ -435,10 +442,43 @@ theorem sound_calls_create {s : Simp} (hs : SimpSound s) (o : Oracle) (cfg : Cfg
     (hd0 : f0.depth = 0) (hsat : Sat I ce.e.st.path) :
     ∃ n w', Evm.exec p n w f0 = some (w', haltWith h (ce.e.data.map (·.eval I))) ∧
         WRelM I (ModelledC cfg codes this) (wd w ce.created ce.nonce) w' (stoOf ce.stores) (evalLogs I ce.logs)
-          (balSem I w ce.bal) :=
-  sound_calls_gen hs o cfg env codes this fuel p w (ModelledC cfg codes this) (Or.inl (Or.inl rfl))
-    (fun _ _ h => Or.inl (modelled_of_code h)) hmem hdep hcodes hcb hz hob
-    (fun hc => ⟨hal, fun n => Or.inr ⟨hc, n, rfl⟩, hbw⟩) hnh ce hce htag h hout I hI hbal hsha f0 hR0 hthis hd0 hsat
+          (balSem I w ce.bal) := by
+  obtain ⟨n, w', hn, hW, _⟩ := sound_calls_gen hs o cfg env codes this fuel p w (ModelledC cfg codes this)
+    (Or.inl (Or.inl rfl)) (fun _ _ h => Or.inl (modelled_of_code h)) hmem hdep hcodes hcb hz hob
+    (fun hc => ⟨hal, fun n => Or.inr ⟨hc, n, rfl⟩, hbw⟩) (fun h' => by rw [hnh] at h'; cases h') ce hce htag h hout
+    I hI hbal hsha (fun _ _ _ => hstoOK_off hnh) f0 hR0 hthis hd0 hsat
+  exact ⟨n, w', hn, hW⟩
+
+/-- **C01.sound_calls_hsto_partial.** The same with SLOAD / SSTORE at mapping and dynamic-array locations followed
+    (`cfg.hsto` on; CREATE on or off — `hch`, `S` as in `sound_calls_gen`: use `ModelledC` / `Modelled`). The conclusion
+    gains the storage clause for the hashed cells, `HRel I p S w' ce.hsto`: every slot from 2^64 on of a modelled account
+    holds, in the final world, what the chain of writes of the path says — the value last stored at the location
+    `hLoc` (Keccak-256 of key ‖ base, resp. of base plus index) of a cell, zero elsewhere; `WRelM` now speaks about the
+    plain slots (below 2^64) only. `ho`: the solver's `unsat` answers are right (`Exec.select`).
+    PARTIAL in `hhs` — at every visited state whose path the valuation satisfies, for the location about to be
+    accessed: (1) the decoded key is a well-formed 256-bit term and the chain is well-formed, and (2) the location
+    term denotes `hLoc` of the decoded cell — two facts about the model (the tie between `decodeSlot` and `f_sha3_*`
+    under `ShaInterp`: `Lemmas.sha512_eval` is the hash part) that are assumed here, not proved —; (3) the location is
+    not a plain slot (≥ 2^64) and (4) no other cell written on the path lies there (`HNoColl`) — the assumptions on
+    Keccak-256, in the style of `ShaOK`. Completeness (`C02`, `C10`) still assumes `cfg.hsto = false`. -/
+theorem sound_calls_hsto_partial {s : Simp} (hs : SimpSound s) (o : Oracle) (ho : OracleSound o) (cfg : Cfg)
+    (env : Env) (codes : List (Nat × List Nat)) (this : Nat) (fuel : Nat) (p : Evm.Params) (w : Evm.World)
+    (S : Nat → Prop) (hS0 : S this) (hSc : ∀ a prog, codeOf codes a = some prog → S a)
+    (hmem : cfg.maxMem + 32 ≤ p.memLimit) (hdep : 1024 ≤ p.maxDepth)
+    (hcodes : ∀ a, w.codeOf a = codeOf codes a)
+    (hcb : ∀ a prog, codeOf codes a = some prog → ∀ b ∈ prog, b < 256)
+    (hz : ∀ a, S a → ZeroStorage w a) (hch : CreateHyp cfg p S w)
+    (ce : CEnd) (hce : ce ∈ (runC s o cfg env codes this fuel).ends)
+    (htag : ce.e.tag = .normal) (h : Evm.Halt) (hout : ce.e.out = .halt h) (I : Interp) (hI : I.Std)
+    (hbal : cfg.balances = true → BalHyp I cfg w) (hsha : cfg.sha3 = true → ShaInterp I p cfg)
+    (hhs : ∀ cs, VisitedC s o cfg codes (initC env codes this) cs → Sat I cs.st.path → HstoOK I p s cfg cs)
+    (f0 : Evm.Frame) (hR0 : R I env ((codeOf codes this).getD []) p initState f0) (hthis : f0.this = this)
+    (hd0 : f0.depth = 0) (hsat : Sat I ce.e.st.path) :
+    ∃ n w', Evm.exec p n w f0 = some (w', haltWith h (ce.e.data.map (·.eval I))) ∧
+        WRelM I S (wd w ce.created ce.nonce) w' (stoOf ce.stores) (evalLogs I ce.logs) (balSem I w ce.bal) ∧
+        HRel I p S w' ce.hsto :=
+  sound_calls_gen hs o cfg env codes this fuel p w S hS0 hSc hmem hdep hcodes hcb hz (fun _ => ho) hch (fun _ => ho)
+    ce hce htag h hout I hI hbal hsha hhs f0 hR0 hthis hd0 hsat
 
 /-! non-vacuity: a caller and a callee -/
 
@@ -491,13 +531,13 @@ example : ∃ n w', Evm.exec exPC n exWC { exF0 with code := callerCode } =
   · have hv : haltWith (.success []) (ce.e.data.map (·.eval exI)) = .success (List.replicate 31 0 ++ [0x2a]) := by
       rw [hd]; rfl
     rw [← hv]; exact h1
-  · have := hW.hsto 0x2000 (Or.inr (by decide)) 0
+  · have := hW.hsto 0x2000 (Or.inr (by decide)) 0 (by decide)
     rw [hs2] at this
     exact this.trans (by decide +kernel)
-  · have := hW.hsto 0x1000 (Or.inl rfl) 1
+  · have := hW.hsto 0x1000 (Or.inl rfl) 1 (by decide)
     rw [hs1] at this
     exact this.trans (by decide +kernel)
-  · have := hW.hsto 0x2000 (Or.inr (by decide)) 1
+  · have := hW.hsto 0x2000 (Or.inr (by decide)) 1 (by decide)
     rw [hs2] at this
     exact this.trans (by decide +kernel)
 
